@@ -264,7 +264,7 @@ struct Sizing {
             mx = std::max(mx, c.ext[k]);
             cube_pow2 = cube_pow2 && c.ext[k] == c.ext[0] && (c.ext[k] & (c.ext[k] - 1)) == 0;
         }
-        covfie::field<SB> sf(covfie::make_parameter_pack(e));
+        covfie::field<SB> sf(pack(e));
         covfie::field<LB> lf(sf);
         uint64_t allocated = lf.backend().get_backend().get_configuration()[0];
         // largest curve position of any in-range coordinate
